@@ -145,6 +145,12 @@ class BuiltinMixin:
             yield st, args[0]
         elif args and self.pyconst(args[0]) is not None and self.is_int(args[0]):
             yield st, StrV(str(self.pyconst(args[0])))
+        elif args and isinstance(args[0], (EnumV, Rec)) and getattr(args[0], "cls", None) is not None \
+                and self.repo.find_method(args[0].cls, "__str__") is not None:
+            yield from self.call_method(st, args[0], "__str__", [], {})      # user-defined __str__
+        elif args and isinstance(args[0], Ref) and st.obj(args[0]).cls is not None \
+                and self.repo.find_method(st.obj(args[0]).cls, "__str__") is not None:
+            yield from self.call_method(st, args[0], "__str__", [], {})
         else:
             yield st, Opaque("str")
 
@@ -161,6 +167,16 @@ class BuiltinMixin:
         yield st, self.T.const(self.fresh("id"))
 
     def bi_hash(self, st, args, kwargs):
+        # hash() is a fixed (uninterpreted) function of the value: equal values hash equal
+        try:
+            from .models import flatten_terms
+            flat = flatten_terms(self, args[0])
+            if flat:
+                f = self.get_uf("hash:" + ",".join(str(t.sort()) for t in flat), [t.sort() for t in flat], self.T.val(0).sort())
+                yield st, f(*flat)
+                return
+        except Unsupported:
+            pass
         yield st, self.T.const(self.fresh("hash"))
 
     def bi_callable(self, st, args, kwargs):
@@ -354,6 +370,13 @@ class BuiltinMixin:
         o, name = args[0], args[1]
         if not isinstance(name, StrV):
             raise Unsupported("getattr with non-literal name")
+        if (is_term(o) or isinstance(o, (NoneV, StrV, BytesV, TupleV))) and name.s not in dir(0) + dir("") + dir(b"") + dir(()):
+            # numbers, strings, bytes, tuples, None have no such attribute
+            if len(args) > 2:
+                yield st, args[2]
+            else:
+                yield st, RaiseV(self.exc("AttributeError", name.s))
+            return
         for s1, r in self.getattr(st, o, name.s):
             if isinstance(r, RaiseV) and r.exc.name == "AttributeError" and len(args) > 2:
                 yield s1, args[2]
@@ -514,14 +537,60 @@ class BuiltinMixin:
         items = self.iter_items(st, args[0])
         if items is None:
             raise Unsupported("sorted over non-meta iterable")
-        if "key" in kwargs:
-            raise Unsupported("sorted with key on meta list")
         cs = [self.pyconst(x) if not isinstance(x, StrV) else x.s for x in items]
-        if any(c is None for c in cs):
-            raise Unsupported("sorted of symbolic elements")
-        rev = bool(self.pyconst(kwargs["reverse"])) if "reverse" in kwargs else False
-        order = sorted(range(len(items)), key=lambda i: cs[i], reverse=rev)
-        yield st.alloc(Obj(None, "list", None, [items[i] for i in order]))
+        if "key" not in kwargs and all(c is not None for c in cs):
+            rev = bool(self.pyconst(kwargs["reverse"])) if "reverse" in kwargs else False
+            order = sorted(range(len(items)), key=lambda i: cs[i], reverse=rev)
+            yield st.alloc(Obj(None, "list", None, [items[i] for i in order]))
+            return
+        yield from self.symbolic_sorted(st, items, kwargs.get("key"), kwargs.get("reverse"))
+
+    def symbolic_sorted(self, st, items, keyfn, reverse):
+        """stable sort of at most 3 elements with symbolic keys: insertion sort, one case split per comparison
+        (Python: sorted(..., reverse=True) orders by descending key and keeps the original order of equal keys)"""
+        import ast as _ast
+        if len(items) > 3:
+            raise Unsupported("sorted of more than 3 symbolic elements")
+        rev = self.truth(st, reverse) if reverse is not None else z3.BoolVal(False)
+        alts = [(st, [])]
+        for x in items:                                   # keys, computed left to right
+            nxt = []
+            for s0, ks in alts:
+                if keyfn is None:
+                    nxt.append((s0, ks + [x]))
+                    continue
+                for s1, k in self.call_value(s0, keyfn, [x], {}):
+                    if isinstance(k, RaiseV):
+                        yield s1, k
+                    else:
+                        nxt.append((s1, ks + [k]))
+            alts = nxt
+        for s0, ks in alts:
+            orders = [(s0, [])]
+            for i in range(len(items)):
+                nxt = []
+                for s1, order in orders:
+                    # insert i after the last element that must stay before it
+                    def place(s2, pos):
+                        # element at order[pos-1] stays before i iff not (key_i strictly precedes key_prev)
+                        if pos == 0:
+                            yield s2, 0
+                            return
+                        j = order[pos - 1]
+                        lt = list(self.compare(s2, _ast.Lt, ks[i], ks[j]))
+                        gt = list(self.compare(s2, _ast.Gt, ks[i], ks[j]))
+                        if len(lt) != 1 or len(gt) != 1 or isinstance(lt[0][1], RaiseV) or isinstance(gt[0][1], RaiseV):
+                            raise Unsupported("sorted: keys that cannot be ordered")
+                        before = z3.If(rev, self.truth(s2, gt[0][1]), self.truth(s2, lt[0][1]))   # i goes before j
+                        if self.feasible(s2.pc, z3.Not(before)):
+                            yield s2.assume(z3.Not(before)), pos
+                        if self.feasible(s2.pc, before):
+                            yield from place(s2.assume(before), pos - 1)
+                    for s3, pos in place(s1, len(order)):
+                        nxt.append((s3, order[:pos] + [i] + order[pos:]))
+                orders = nxt
+            for s1, order in orders:
+                yield s1.alloc(Obj(None, "list", None, [items[i] for i in order]))
 
     def bi_object(self, st, args, kwargs):
         yield st.alloc(Obj(None, "obj", {}))
@@ -795,13 +864,22 @@ class BuiltinMixin:
     # --- set
     def m_set_add(self, st, r, o, args, kwargs):
         x = args[0]
+        maybe = []
         for y in o.items:
             e = _fold(self.eq(st, x, y))
             if z3.is_true(e):
                 yield st, NONE
                 return
             if not z3.is_false(e):
-                raise Unsupported("set.add of symbolic element to meta set")
+                maybe.append(e)
+        if maybe:
+            # equality with an element already in the set is not decided syntactically: case split
+            dup = z3.Or(*maybe)
+            if self.feasible(st.pc, dup):
+                yield st.assume(dup), NONE
+            if not self.feasible(st.pc, z3.Not(dup)):
+                return
+            st = st.assume(z3.Not(dup))
         nb = o.copy()
         nb.items.append(x)
         yield st.replace_obj(r, nb), NONE
